@@ -353,6 +353,7 @@ def emit():
                 body += ['kani::cover!(true, "reached end");']
                 c18[tier].append("kproof!(%s_%s_n%d_k%d, 5, {\n        %s\n    });" % (name, v[0], n, k, "\n        ".join(body)))
     c18p = {"q": [], "t": []}
+    native = []
     for ent in ENUMS:
         (name, tier, note, variants, nver) = ent[:5]
         n = nver - 1
@@ -363,12 +364,15 @@ def emit():
                 fn_ = [(ft, fadd) for (ft, fadd) in v[1] if fadd <= n]
                 c18p[tier].append("#[kani::proof]\n    #[kani::should_panic]\n    #[kani::stub(std::collections::hash_map::RandomState::new, crate::common::fixed_keys)]\n    #[kani::stub(alloc::fmt::format, crate::common::fmt_stub)]\n    #[kani::unwind(5)]\n    pub fn %s_%s_absent_k%d() {\n        let x = %s::v%d::E::%s%s;\n        // documented: writing a variant that does not exist in the written version panics; silently emitting it would\n        // produce data the older definition cannot read\n        let _ = ser::<%s::v%d::E, 32>(&x, %d);\n    }" % (
                     name, v[0], k, name, n, v[0], "(%s)" % ", ".join(any_expr(ft) for (ft, _) in fn_) if fn_ else "", name, n, k))
-    out.append("pub mod c18p {\n    use super::*;")
+                native.append("#[test]\n    #[should_panic]\n    fn %s_%s_absent_k%d() {\n        let x = %s::v%d::E::%s%s;\n        let _ = ser::<%s::v%d::E, 32>(&x, %d);\n    }" % (
+                    name, v[0], k, name, n, v[0], "(%s)" % ", ".join("Default::default()" for _ in fn_) if fn_ else "", name, n, k))
+    out.append("/// native replay of the should_panic harnesses (run by ./check when one of them stops panicking)\n#[cfg(all(test, not(kani)))]\nmod native {\n    use super::*;\n    %s\n}" % "\n    ".join(native))
+    out.append("#[cfg(kani)]\npub mod c18p {\n    use super::*;")
     for t, hs in c18p.items():
         out.append("    pub mod %s {\n    use super::*;\n    %s\n    }" % (t, "\n    ".join(hs)))
     out.append("}")
     for (m, d) in (("c03", c03), ("c18", c18)):
-        out.append("pub mod %s {\n    use super::*;" % m)
+        out.append("#[cfg(kani)]\npub mod %s {\n    use super::*;" % m)
         for t, hs in d.items():
             out.append("    pub mod %s {\n    use super::*;\n    %s\n    }" % (t, "\n    ".join(hs)))
         out.append("}")
